@@ -207,6 +207,14 @@ func c07Directed(r *wk.Rand) [][]c07Item {
 		out = append(out, []c07Item{startItem, rej, sig, sig, ws(run+"-ok", "sig", "ok"), sig, done})
 		out = append(out, []c07Item{startItem, sig, rej, ws(run+"-g", "echo", "gated"), sig, done})
 	}
+	// long IDs that are not ASCII: the error reports quote them, and a report is valid text however long it gets
+	for shift := 0; shift < 4; shift++ {
+		longStep := strings.Repeat("x", shift) + strings.Repeat("ステップ", 140)
+		longRun := strings.Repeat("y", shift) + strings.Repeat("名前", 300)
+		out = append(out, []c07Item{startItem, {kind: "workstart", bytes: c07WorkStart(fmt.Sprintf("long-step-%d", shift), longStep, map[string]any{"nonce": "n"}), run: fmt.Sprintf("long-step-%d", shift), step: longStep}, done})
+		out = append(out, []c07Item{startItem, {kind: "workstart", bytes: c07WorkStart(longRun, "nosuchstep", map[string]any{"nonce": "n"}), run: longRun, step: "nosuchstep"},
+			{kind: "signal", bytes: c07Signal(longRun, strings.Repeat("信号", 300), map[string]any{"v": int64(1)}), run: longRun}, done})
+	}
 	// the same run ID twice; unknown message ID; unknown step; many failing steps at once
 	out = append(out, []c07Item{startItem, ws("dup", "echo", "ok"), ws("dup", "echo", "ok")})
 	out = append(out, []c07Item{startItem, ws("dup2", "echo", "gated"), ws("dup2", "echo2", "gated"), done})
